@@ -24,6 +24,11 @@ def L(items):
     return t
 
 
+def PT(text):
+    """the term the parser builds for this text (list literals go through PrologFactory.build_list)"""
+    return Term.from_string(text)
+
+
 def ground(t):
     return isinstance(t, Term) and t.is_ground()
 
@@ -64,6 +69,10 @@ SHAPES = ["Term('a')", "Term(\"'a'\")", "Term('b')", "Constant(I)", "Constant(F)
           "And(Term('a'), Term('b'))", "Term(',', Term('a'), Term('b'))", "Or(Term('a'), Term('b'))",
           "L([Constant(I), Term('a')])", "L([Term('a')] * 10 + [Constant(I)])", "L([Term('a')] * 11 + [Constant(I)])",
           "Term('g', Constant(I), Constant(I))", "Term('f', Term('f', Constant(I)))"]
+# list terms as the parser builds them (bar syntax with list tails) next to the same lists built cell by cell
+PARSED = ["PT('[a,b,c]')", "PT('[a|[b,c]]')", "PT('[a,b|[c]]')", "PT('[a|[b|[c]]]')", "L([Term('a'), Term('b'), Term('c')])",
+          "PT('f([a|[b,c]],x)')", "Term('f', L([Term('a'), Term('b'), Term('c')]), Term('x'))", "PT('[a|T]')", "PT('[a,b|T]')",
+          "PT('[[a]|[[b]]]')", "L([L([Term('a')]), L([Term('b')])])"]
 
 
 def instantiate(tpl, k0):
@@ -107,6 +116,7 @@ def harnesses(tier, seed):
         rng.shuffle(pairs)
         same = [(s, s) for s in SHAPES]
         pairs = same + [p for p in pairs if p[0] != p[1]][:150]
+    pairs += list(itertools.combinations_with_replacement(PARSED, 2))
     hs = [harness(i, p) for i, p in enumerate(pairs)]
     small = ["Term('a')", "Term(\"'a'\")", "Constant(I)", "Constant(F)", "Constant('1')", "Var('X')", "Term('X')", "Term('f', Constant(I))",
              "Not('\\\\+', Term('a'))", "Not('not', Term('a'))", "Term('\\\\+', Term('a'))", "Constant('a')"]
